@@ -80,6 +80,59 @@ def saved_inputs(pid):
     return out
 
 
+def run_fuzz(pid, mod, seed, known, violations):
+    """atheris campaigns for the clauses named in mod.FUZZ = [(clause, runs per worker, workers)].  If atheris is not
+    installed the tier is skipped and says so (never a violation)."""
+    import shutil
+    import subprocess
+    import tempfile
+    report = []
+    try:
+        sys.path.insert(0, os.path.join(core.ROOT, '.deps'))
+        import atheris  # noqa: F401
+    except Exception as e:
+        return [{'skipped': 'atheris not importable: %s' % e}]
+    base = tempfile.mkdtemp(prefix='vf-fuzz-')
+    try:
+        procs = []
+        for cname, runs, workers in mod.FUZZ:
+            for w in range(workers):
+                out = os.path.join(base, '%s-%d' % (cname, w))
+                cmd = [sys.executable, '-W', 'ignore', '-m', 'vf.fuzz', pid, cname, str(runs),
+                       str(core.derive_seed(seed, cname, w) % (2 ** 31 - 1) + 1), out]
+                procs.append((cname, w, out, subprocess.Popen(cmd, cwd=core.ROOT, stdout=subprocess.DEVNULL,
+                                                              stderr=subprocess.PIPE, text=True)))
+        for cname, w, out, p in procs:
+            try:
+                _, err = p.communicate(timeout=3000)
+            except subprocess.TimeoutExpired:
+                p.kill()
+                _, err = p.communicate()
+            st = {}
+            try:
+                with open(os.path.join(out, 'stats.json')) as f:
+                    st = json.load(f)
+            except Exception:
+                st = {'error': 'no stats written', 'stderr_tail': (err or '')[-300:]}
+            cov = [ln for ln in (err or '').splitlines() if 'cov:' in ln]
+            st['worker'] = w
+            st['libfuzzer_last'] = cov[-1].strip() if cov else None
+            v = st.get('violation')
+            if v:
+                with open(v['replay']) as f:
+                    rp = json.load(f)
+                # confirm outside the fuzzer with the plain regression path before reporting
+                unknown, _, _ = core.replay_case(find_clause(mod, cname), rp['case'], known)
+                if unknown and not any(x[0] == unknown[0].sig for x in violations):
+                    path = write_replay(pid, cname, unknown[0].sig, rp['case'], unknown[0].detail)
+                    violations.append((unknown[0].sig, path, unknown[0].detail))
+                st['violation'] = {'signature': v['signature'], 'confirmed_by_replay': bool(unknown)}
+            report.append(st)
+    finally:
+        shutil.rmtree(base, ignore_errors=True)
+    return report
+
+
 def main(argv):
     if len(argv) < 3:
         print(__doc__)
@@ -166,6 +219,11 @@ def main(argv):
                     path = write_replay(pid, cname, sig, case, detail)
                     violations.append((sig, path, detail))
 
+    # --- coverage-guided tier (atheris / libFuzzer), thorough only ---------------
+    fuzz_report = []
+    if tier == 'thorough' and getattr(mod, 'FUZZ', None):
+        fuzz_report = run_fuzz(pid, mod, seed, known, violations)
+
     if harness_errors:
         for cname, shard, msg in harness_errors:
             print('HARNESS-ERROR clause=%s shard=%s\n%s' % (cname, shard, msg))
@@ -219,6 +277,7 @@ def main(argv):
                                for e in known.known],
             'exhaustive': bool(mod.CLAUSES) and all(c.enumerate is not None for c in mod.CLAUSES),
             'violation_signatures': [v[0] for v in violations],
+            'fuzz': fuzz_report,
         }}
     os.makedirs(os.path.join(OUT, 'evidence'), exist_ok=True)
     with open(os.path.join(OUT, 'evidence', '%s.json' % pid), 'w') as f:
